@@ -18,7 +18,7 @@
 EXTENDS Client, TraceKit
 
 MaxC == 3
-VARIABLES i, bad, dropped, tags, st, raw, slots, tid
+VARIABLES i, bad, dropped, tags, st, raw, slots, ask, listed, tid
 
 \* raw[c]: bytes of the last reply (for field comparison); slots[c]: what the device model stores (C10)
 Blanked == Idle(1, Zeros(3), Zeros(1))
@@ -159,21 +159,35 @@ ReturnClauses(s, e, b) ==
 ---------------------------------------------------------------------------
 (* the device model behind C10: acknowledged create frames are stored and a  *)
 (* reply with src = "device" must list exactly what is stored                *)
-StoreIfCreate(sl, b) ==
-  LET d == DecodeFrame(b) IN IF d.kind = "createschedule" THEN Append(sl, <<d.mask>> \o d.start \o d.end) ELSE sl
+NoAsk == [known |-> FALSE, start |-> <<>>, end |-> <<>>, days |-> {}]
+StoreIfCreate(sl, b, asked) ==
+  LET d == DecodeFrame(b) IN
+  IF d.kind = "createschedule" THEN Append(sl, [bytes |-> <<d.mask>> \o d.start \o d.end, ask |-> asked]) ELSE sl
+\* what the caller of create_schedule asked for (only for accepted, strictly spelled arguments)
+AskOf(s, a) == IF s.op = "create_schedule" /\ s.arg = "ok"
+               THEN [known |-> TRUE, start |-> a.start, end |-> a.end, days |-> SeqToSet(a.days)] ELSE NoAsk
 ListingClauses(sl, b) ==
   LET n == NRecords(b) IN
      Cl(WholeRecords(b) /\ n = Len(sl), "harness:device-lists-its-slots")
   \o (IF WholeRecords(b) /\ n = Len(sl)
       THEN Cl(\A k \in 1..n : LET rec == RecordAt(b, k) IN
-                 <<RecMask(rec)>> \o RecStart4(rec) \o RecEnd4(rec) = sl[k] /\ RecId(rec) = k - 1, "harness:device-lists-its-slots")
+                 <<RecMask(rec)>> \o RecStart4(rec) \o RecEnd4(rec) = sl[k].bytes /\ RecId(rec) = k - 1, "harness:device-lists-its-slots")
       ELSE <<>>)
 
 ---------------------------------------------------------------------------
 (* one event                                                                 *)
 Res(why, tag, s2, raw2, sl2) == [why |-> why, tag |-> tag, s |-> s2, raw |-> raw2, sl |-> sl2]
 
-Step(e, s, rw, sl) ==
+\* C10 round trip: every slot created through create_schedule reads back as what its caller asked for
+ReadBackClauses(sl, r) ==
+  Cl(\A k \in 1..Len(sl) : sl[k].ask.known =>
+        \E j \in 1..Len(r.scheds) :
+           LET g == r.scheds[j] IN
+             /\ g.id = Decimal(k - 1) /\ g.start = sl[k].ask.start /\ g.end = sl[k].ask.end
+             /\ SeqToSet(g.days) = sl[k].ask.days /\ (g.recurring <=> sl[k].ask.days # {}),
+     "C10:created-schedule-reads-back")
+
+Step(e, s, rw, sl, ak, ls) ==
   CASE e.ev = "Open" -> Res(<<>>, "open", Idle(e.api, e.dev, e.key), <<>>, <<>>)
     [] e.ev = "Connect" ->
          Res(   Cl(e.flag = e.ok, "C18:connected-after-connect")
@@ -199,9 +213,9 @@ Step(e, s, rw, sl) ==
          THEN LET ex == Expect(s) IN
               (CASE ex.must = "write" ->
                      Res(FrameClauses(s, ex.want, ex.why, e.b, e.clk), "write-" \o ex.want.kind \o "-" \o ex.why, OnWrite(s), rw,
-                         StoreIfCreate(sl, e.b))
+                         StoreIfCreate(sl, e.b, ak))
                 [] ex.must = "open" ->
-                     Res(IF s.L.carried THEN C01Clauses(e.b) ELSE <<>>, "write-open-" \o ex.why, OnWrite(s), rw, StoreIfCreate(sl, e.b))
+                     Res(IF s.L.carried THEN C01Clauses(e.b) ELSE <<>>, "write-open-" \o ex.why, OnWrite(s), rw, StoreIfCreate(sl, e.b, NoAsk))
                 [] ex.must = "finish" ->
                      Res(UnexpectedWriteClauses(s), "write-unexpected-" \o ex.why, [OnWrite(s) EXCEPT !.free = TRUE], rw, sl))
          ELSE Res(<<"C03:frame-without-waiting-for-the-reply">>, "write-out-of-turn", s, rw, sl)
@@ -216,7 +230,8 @@ Step(e, s, rw, sl) ==
     [] e.ev = "Ret" ->
          LET o == [out |-> e.out, ok |-> e.ok] IN
          IF s.pc = "cmd"
-         THEN Res(FinishClauses(s, o) \o (IF s.free THEN <<>> ELSE ReturnClauses(s, e, rw)),
+         THEN Res(FinishClauses(s, o) \o (IF s.free THEN <<>> ELSE ReturnClauses(s, e, rw))
+                  \o (IF s.op = "get_schedules" /\ ls /\ e.out = "return" /\ ~s.free THEN ReadBackClauses(sl, e.r) ELSE <<>>),
                   "ret-" \o e.out \o "-" \o Expect(s).must \o "-" \o Expect(s).why, OnRet(s), rw, sl)
          ELSE IF s.pc = "login"
          THEN Res(Cl(e.out # "return" /\ s.arg # "ok", "C03:call-ended-before-login"), "ret-before-login", OnRet(s), rw, sl)
@@ -224,8 +239,9 @@ Step(e, s, rw, sl) ==
     [] OTHER -> Res(<<"unknown-event">>, "unknown", s, rw, sl)
 
 Fresh == [c \in 1..MaxC |-> Blanked]
+Empty3 == [c \in 1..MaxC |-> <<>>]
 Init == i = 1 /\ bad = <<>> /\ dropped = 0 /\ tags = <<>> /\ st = Fresh
-        /\ raw = [c \in 1..MaxC |-> <<>>] /\ slots = [c \in 1..MaxC |-> <<>>] /\ tid = -1
+        /\ raw = Empty3 /\ slots = Empty3 /\ ask = [c \in 1..MaxC |-> NoAsk] /\ listed = [c \in 1..MaxC |-> FALSE] /\ tid = -1
 Next ==
   /\ i <= NEvents
   /\ LET e == Events[i]
@@ -233,16 +249,22 @@ Next ==
          s0 == IF new THEN Blanked ELSE st[e.c]
          r0 == IF new THEN <<>> ELSE raw[e.c]
          l0 == IF new THEN <<>> ELSE slots[e.c]
-         r == Step(e, s0, r0, l0)
+         a0 == IF new THEN NoAsk ELSE ask[e.c]
+         d0 == IF new THEN FALSE ELSE listed[e.c]
+         r == Step(e, s0, r0, l0, a0, d0)
      IN /\ bad' = IF r.why = <<>> THEN bad ELSE AddBad(bad, e, r.why)
         /\ dropped' = IF r.why = <<>> THEN dropped ELSE Dropped(bad, dropped)
         /\ tags' = Bump(tags, r.tag)
         /\ st' = [(IF new THEN Fresh ELSE st) EXCEPT ![e.c] = r.s]
-        /\ raw' = [(IF new THEN [c \in 1..MaxC |-> <<>>] ELSE raw) EXCEPT ![e.c] = r.raw]
-        /\ slots' = [(IF new THEN [c \in 1..MaxC |-> <<>>] ELSE slots) EXCEPT ![e.c] = r.sl]
+        /\ raw' = [(IF new THEN Empty3 ELSE raw) EXCEPT ![e.c] = r.raw]
+        /\ slots' = [(IF new THEN Empty3 ELSE slots) EXCEPT ![e.c] = r.sl]
+        /\ ask' = [(IF new THEN [c \in 1..MaxC |-> NoAsk] ELSE ask) EXCEPT
+                     ![e.c] = IF e.ev = "Call" THEN AskOf(r.s, e.a) ELSE a0]
+        /\ listed' = [(IF new THEN [c \in 1..MaxC |-> FALSE] ELSE listed) EXCEPT
+                     ![e.c] = IF e.ev = "Reply" THEN e.src = "device" ELSE d0]
         /\ tid' = e.tid
   /\ i' = i + 1
-vars == <<i, bad, dropped, tags, st, raw, slots, tid>>
+vars == <<i, bad, dropped, tags, st, raw, slots, ask, listed, tid>>
 Spec == Init /\ [][Next]_vars
 Done == i = NEvents + 1 => WriteVerdict(bad, dropped, tags)
 
